@@ -116,7 +116,7 @@ func RunC01(ep *core.Episode) {
 	o.DisableNorm = tp.Chance("nonorm", 1, 4)
 	r := startEcho(ep, o)
 	n := 1 + tp.Weighted("nreq", []int{2, 3, 3, 2, 1, 1})
-	gopt := GenOpt{NearMiss: true, Expect100: true, HTTP10: true, BigBodies: true, ChunkExt: ep.Param("chunkext") != "off"}
+	gopt := GenOpt{NearMiss: true, Expect100: true, HTTP10: true, BigBodies: true, Hostile: true, ChunkExt: ep.Param("chunkext") != "off"}
 	var reqs []*GenReq
 	for i := 0; i < n; i++ {
 		g := GenRequest(tp, i, i == n-1, gopt)
